@@ -57,8 +57,9 @@ Proof.
   assert (Rgone s (s <| events := [] |>)) as H0 by (apply Rgone_obss; reflexivity).
   pose proof (gone_step fuel st o (s <| events := [] |>)) as H1.
   destruct (step fuel st o (s <| events := [] |>)) as [r s1] eqn:E. simpl in H1.
-  pose proof (Rgone_collect [] s1) as H2.
-  assert (Rgone s (collect [] s1).2) as H3 by (etrans; [exact H0|]; etrans; [exact H1|exact H2]).
+  assert (Rgone s1 (end_of_op s1)) as H2.
+  { unfold end_of_op. etrans; [apply Rgone_collect|]. apply Rgone_obss. reflexivity. }
+  assert (Rgone s (end_of_op s1)) as H3 by (etrans; [exact H0|]; etrans; [exact H1|exact H2]).
   destruct r as [[st' out]| |]; simpl; (constructor; [exact H3|]).
   all: eapply Forall_impl; [|apply IH]; intros e He; simpl in *; etrans; [exact H3|exact He].
 Qed.
